@@ -558,6 +558,119 @@ def thread_returns(D, lo, hi, ret_local, tracked=None, start=None):
     return done
 
 
+def json_dumps_blocks_gargs(H):
+    return ' '.join(b['term'].get('gargs') or '' for b in H['blocks'] if b['term']['t'] == 'call')
+
+def _split_gargs(g):
+    g = (g or '').strip()
+    if not (g.startswith('[') and g.endswith(']')):
+        return []
+    g = g[1:-1]
+    out, depth, cur = [], 0, ''
+    for ch in g:
+        if ch in '<([':
+            depth += 1
+        elif ch in '>)]':
+            depth -= 1
+        if ch == ',' and depth == 0:
+            out.append(cur.strip())
+            cur = ''
+        else:
+            cur += ch
+    if cur.strip():
+        out.append(cur.strip())
+    return out
+
+
+def instantiate_generics(P, blocks, caller_gargs):
+    """a generic helper is inlined at a call that names its type arguments: trait-method calls on a type parameter
+    (`T::parse(..)`, unresolved in the generic body) are resolved to the impl of the concrete type"""
+    args = _split_gargs(caller_gargs)
+    if not args:
+        return
+    for b in blocks:
+        t = b['term']
+        if t['t'] != 'call' or not t.get('trait') or t.get('resolved'):
+            continue
+        ga = _split_gargs(t.get('gargs'))
+        if not ga:
+            continue
+        m = re.match(r'^\w+/#(\d+)$', ga[0])
+        if not m or int(m.group(1)) >= len(args):
+            continue
+        conc = args[int(m.group(1))]
+        if re.match(r'^\w+/#\d+$', conc) or conc.startswith("'"):
+            continue
+        method = t['callee'].rsplit('::', 1)[-1]
+        try:
+            ib = P.find_impl(norm(t['trait']), norm(conc), method)
+        except Exception:
+            continue
+        t['resolved'] = ib.raw
+        t['gargs'] = '[' + ', '.join([conc] + ga[1:]) + ']'
+        t['instantiated'] = True
+
+
+MAP_ADAPTERS = {'core::result::Result::map': ('core::result::Result', 'Ok', 'Err', True), 'core::option::Option::map': ('core::option::Option', 'Some', 'None', False),
+                'core::result::Result::map_err': ('core::result::Result', 'Err', 'Ok', True)}
+RESULT_OF = {'adt': 'core::result::Result', 'variants': [['Ok', '0'], ['Err', '1']]}
+OPTION_OF = {'adt': 'core::option::Option', 'variants': [['None', '0'], ['Some', '1']]}
+
+
+def expand_ctor_maps(P, D):
+    """`r.map(Enum::Variant)` / `o.map(Enum::Variant)` / `r.map_err(Enum::Variant)` with an enum (or tuple-struct)
+    constructor passed as a function: written out as the match it stands for (std's definition of map with a known
+    function), so that the construction is visible as an aggregate like everywhere else.  Returns the number rewritten."""
+    n = 0
+    for bi in range(len(D['blocks'])):
+        b = D['blocks'][bi]
+        t = b['term']
+        if b['cleanup'] or t['t'] != 'call' or norm(t.get('callee', '')) not in MAP_ADAPTERS or len(t['args']) != 2:
+            continue
+        f = t['args'][1]
+        x = t['args'][0]
+        if f.get('k') != 'const' or not f.get('fn') or x.get('k') not in ('copy', 'move') or x['pl']['p'] or t['dest']['p']:
+            continue
+        fn = norm(f['fn'])
+        if '::' not in fn:
+            continue
+        adt, variant = fn.rsplit('::', 1)
+        a = P.adts.get(adt)
+        if a is None or variant not in [v['name'] for v in a['variants']]:
+            continue
+        succ = [s_ for s_ in t.get('succ', []) if s_ != '']
+        if len(succ) != 1:
+            continue
+        outer, hit, other, is_result = MAP_ADAPTERS[norm(t['callee'])]
+        of = RESULT_OF if is_result else OPTION_OF
+        val = {nm: v for nm, v in of['variants']}
+        idx = {nm: i for i, (nm, v) in enumerate(of['variants'])}
+        line = t.get('span', {}).get('line')
+        L = len(D['locals'])
+        D['locals'] = list(D['locals']) + ['isize', '?', adt, '?']
+        d_, p_, r_, e_ = L, L + 1, L + 2, L + 3
+        xl = x['pl']['l']
+        nb = len(D['blocks'])
+        hit_blk = {'cleanup': False, 'inl': 'map', 'stmts': [
+            _assign({'l': p_, 'p': []}, _use({'k': 'move', 'pl': {'l': xl, 'p': ['downcast:%d:%s' % (idx[hit], hit), 'field:0:0']}}), line),
+            _assign({'l': r_, 'p': []}, {'r': 'agg', 'adt': adt, 'variant': variant, 'fields': ['0'], 'a': [{'k': 'move', 'pl': {'l': p_, 'p': []}}]}, line),
+            _assign(dict(t['dest']), {'r': 'agg', 'adt': outer, 'variant': hit, 'fields': ['0'], 'a': [{'k': 'move', 'pl': {'l': r_, 'p': []}}]}, line)],
+            'term': {'t': 'goto', 'succ': [int(succ[0])]}}
+        if other == 'None':
+            other_stmts = [_assign(dict(t['dest']), {'r': 'agg', 'adt': outer, 'variant': 'None', 'fields': [], 'a': []}, line)]
+        else:
+            other_stmts = [_assign({'l': e_, 'p': []}, _use({'k': 'move', 'pl': {'l': xl, 'p': ['downcast:%d:%s' % (idx[other], other), 'field:0:0']}}), line),
+                           _assign(dict(t['dest']), {'r': 'agg', 'adt': outer, 'variant': other, 'fields': ['0'], 'a': [{'k': 'move', 'pl': {'l': e_, 'p': []}}]}, line)]
+        other_blk = {'cleanup': False, 'inl': 'map', 'stmts': other_stmts, 'term': {'t': 'goto', 'succ': [int(succ[0])]}}
+        D['blocks'].append(hit_blk)
+        D['blocks'].append(other_blk)
+        b['stmts'].append(_assign({'l': d_, 'p': []}, {'r': 'discr', 'pl': {'l': xl, 'p': []}, 'of': of}, line))
+        b['term'] = {'t': 'switch', 'discr': {'k': 'move', 'pl': {'l': d_, 'p': []}}, 'dty': 'isize',
+                     'vals': [[val[hit], nb], [val[other], nb + 1]], 'otherwise': nb + 1, 'span': t.get('span', {})}
+        n += 1
+    return n
+
+
 class Inliner:
     def __init__(self, P, known):
         self.P = P
@@ -653,6 +766,9 @@ class Inliner:
                         self.kept.add(tgt)
                         continue
                     H = self.inl(tgt + '::{closure#0}')
+                    if cs.gargs and '/#' in json_dumps_blocks_gargs(H):
+                        H = copy.deepcopy(H)
+                        instantiate_generics(self.P, H['blocks'], cs.gargs)
                     if len(cs.args) != len(cb.upvars) and cb.upvars:
                         skip.add(key)
                         self.kept.add(tgt)
@@ -669,6 +785,9 @@ class Inliner:
                         self.kept.add(tgt)
                         continue
                     H = self.inl(tgt)
+                    if cs.gargs and '/#' in json_dumps_blocks_gargs(H):
+                        H = copy.deepcopy(H)
+                        instantiate_generics(self.P, H['blocks'], cs.gargs)
                     inline_sync(D, cs.block, H)
                     self.log.append((path, tgt, 'sync'))
                 D['inlined'] = sorted(set(D.get('inlined', [])) | {tgt} | set(H.get('inlined', [])))
@@ -760,6 +879,52 @@ def relocate_moved(P, known):
     return alias
 
 
+def alias_param_names(P):
+    """parameters are identified by position: if a parameter of a known function was renamed, its pinned name stays usable
+    (every debug name with the new base name gets a twin with the old one).  Applies to the fn body and, for an async fn,
+    to its coroutine body (upvars are the parameters in order)."""
+    sigs = load_sigs()
+    n = 0
+    for path, sg in sigs.items():
+        if len(sg) < 5 or not sg[4]:
+            continue
+        b = P.get(path)
+        if b is None or b.crate not in CRATES:
+            continue
+        old = sg[4]
+        cur = {}
+        for nm, pl in b.names.items():
+            if not pl['p'] and 1 <= pl['l'] <= b.argc and '#' not in nm:
+                cur[pl['l']] = nm
+        if len(cur) != len(old):
+            continue
+        ren = {cur[i + 1]: old[i] for i in range(len(old)) if cur[i + 1] != old[i]}
+        if not ren:
+            continue
+        targets = [b]
+        if b.is_async:
+            cb = P.get(path + '::{closure#0}')
+            if cb is not None:
+                targets.append(cb)
+        for tb in targets:
+            bases = {k.split('#')[0] for k in tb.names}
+            first = {}
+            for newn, oldn in ren.items():
+                if oldn in bases:
+                    continue            # the old name now means something else in this body
+                for k in list(tb.names):
+                    if k.split('#')[0] == newn:
+                        first[oldn + k[len(newn):]] = tb.names[k]
+                        n += 1
+            if first:
+                # pinned names first: they are the ones used when a place is printed (panic-site keys, diagnostics)
+                merged = dict(first)
+                merged.update(tb.names)
+                tb.names.clear()
+                tb.names.update(merged)
+    return n
+
+
 def apply(P, known=None):
     """rewrite P in place: every known body gets unknown helpers inlined; helpers that were inlined everywhere are
     removed from the program.  Returns the inliner (log of what was done)."""
@@ -770,6 +935,19 @@ def apply(P, known=None):
     if known is None:
         return inl
     inl.moved = relocate_moved(P, known)
+    inl.renamed_params = alias_param_names(P)
+    # adapters with a constructor passed as a function are written out (everywhere: a refactoring may introduce one
+    # without adding any function)
+    for path, bs in list(P.bodies.items()):
+        for i, b in enumerate(bs):
+            if b.is_promoted or b.crate not in CRATES or b.kind in ('Static', 'Const', 'AssocConst'):
+                continue
+            if any(bl['term']['t'] == 'call' and norm(bl['term'].get('callee', '')) in MAP_ADAPTERS and len(bl['term']['args']) == 2 and bl['term']['args'][1].get('fn') for bl in b.blocks):
+                D = copy.deepcopy(b.d)
+                if expand_ctor_maps(P, D):
+                    nb = Body(D, b.crate)
+                    nb.prog = P
+                    bs[i] = nb
     # roots: every body that is not itself (part of) an unknown helper
     todo = []
     for path, bs in list(P.bodies.items()):
